@@ -135,6 +135,11 @@ pub const CATALOGUE: &[Entry] = &[
     e("intermediate_step_out_of_range", "@&«(999)»zz9{}", E::INTERMEDIATE_PREPARATIONS, Err_, Analysis, false),
     e("intermediate_relative_out_of_range", "@&«(~999)»zz9{}", E::INTERMEDIATE_PREPARATIONS, Err_, Analysis, false),
     e("intermediate_section_out_of_range", "@&«(=999)»zz9{}", E::INTERMEDIATE_PREPARATIONS, Err_, Analysis, false),
+    // boundary: exactly one past the last step / section that exists before the reference (computed per placement)
+    e("intermediate_step_one_past_last", "@&«(%STEPS+1%)»zz9{}", E::INTERMEDIATE_PREPARATIONS, Err_, Analysis, false),
+    e("intermediate_relative_one_past_last", "@&«(~%STEPS+1%)»zz9{}", E::INTERMEDIATE_PREPARATIONS, Err_, Analysis, false),
+    e("intermediate_section_one_past_last", "@&«(=%SECTIONS+1%)»zz9{}", E::INTERMEDIATE_PREPARATIONS, Err_, Analysis, false),
+    e("intermediate_relative_section_one_past_last", "@&«(=~%SECTIONS+1%)»zz9{}", E::INTERMEDIATE_PREPARATIONS, Err_, Analysis, false),
     e("intermediate_with_conflicting_modifier", "filler\n\n@«&(~1)-»zz9{}", E::INTERMEDIATE_PREPARATIONS, Err_, Analysis, true),
     e("bad_mode_value", ">> [mode]: «bogus»", E::MODES, Err_, Analysis, true),
     e("bad_duplicate_value", ">> [duplicate]: «bogus»", E::MODES, Err_, Analysis, true),
@@ -208,8 +213,34 @@ fn placements(host: &str) -> (Vec<usize>, Vec<usize>) {
     (blocks, inline)
 }
 
+/// number of steps of the current section and of completed sections that exist before `pos` in the (clean,
+/// mode-free) host; the host prefix is parsed with the library itself, only its section/step structure is used
+pub fn counts_before(host: &str, pos: usize, inline: bool) -> (usize, usize) {
+    // a probe step is appended so that the LAST section of the parse is certainly the current one (a trailing
+    // empty `=` header would otherwise be dropped); for an inline placement the cut-short step is the probe
+    let prefix = if inline { host[..pos].to_string() } else { format!("{}\n\nzzprobe\n", &host[..pos]) };
+    let parser = cooklang::CooklangParser::new(E::empty(), cooklang::Converter::empty());
+    let Some(r) = parser.parse(&prefix).into_output() else { return (0, 0) };
+    let steps = r.sections.last().map(|s| s.content.iter().filter(|c| matches!(c, cooklang::Content::Step(_))).count()).unwrap_or(0);
+    (steps.saturating_sub(1), r.sections.len().saturating_sub(1))
+}
+
+fn expand(template: &str, host: &str, pos: usize, inline: bool, delta: usize) -> String {
+    if !template.contains('%') || !(template.contains("%STEPS+1%") || template.contains("%SECTIONS+1%")) {
+        return template.to_string();
+    }
+    let (st, se) = counts_before(host, pos, inline);
+    template.replace("%STEPS+1%", &(st + delta).to_string()).replace("%SECTIONS+1%", &(se + delta).to_string())
+}
+
 pub fn inject(host: &str, entry: &Entry, pos: usize, inline: bool) -> (String, usize, usize) {
-    let (c, lo, hi) = unmark(entry.template);
+    inject_delta(host, entry, pos, inline, 1)
+}
+
+/// `delta` = 1: one past the last (must be diagnosed); `delta` = 0: the last existing one (must be clean)
+pub fn inject_delta(host: &str, entry: &Entry, pos: usize, inline: bool, delta: usize) -> (String, usize, usize) {
+    let t = expand(entry.template, host, pos, inline, delta);
+    let (c, lo, hi) = unmark(&t);
     let (pre, post) = if inline {
         ("", " ")
     } else {
@@ -373,6 +404,15 @@ pub fn run(ctx: &mut Ctx) {
                 let (pos, is_inline) = if !entry.block && !inline.is_empty() && ctx.rng.coin() { (inline[ctx.rng.below(inline.len())], true) } else { (blocks[ctx.rng.below(blocks.len())], false) };
                 let (text, lo, hi) = inject(&host, entry, pos, is_inline);
                 check_injection(ctx, &mut ps, entry, &text, lo, hi, ext, if is_inline { "inline" } else if pos == 0 { "first_block" } else if pos == host.len() { "last_block" } else { "between_blocks" });
+                if entry.name.ends_with("one_past_last") {
+                    // the companion: the LAST existing step / section is a valid target, the recipe stays clean
+                    let (st, se) = counts_before(&host, pos, is_inline);
+                    let exists = if entry.name.contains("section") { se >= 1 } else { st >= 1 };
+                    if exists {
+                        let (ok_text, _, _) = inject_delta(&host, entry, pos, is_inline, 0);
+                        check_clean(ctx, &mut ps, &ok_text, ext, "bundled", "intermediate_last_existing_target");
+                    }
+                }
             }
         }
     }
